@@ -90,7 +90,8 @@ EqObs ==
               panics == {p \in NN : m[p[1]][p[2]] \notin {"T", "F"}}
               ftrue  == {p \in NN : m[p[1]][p[2]] = "T" /\ ~ref[p[1]][p[2]]}
               ffalse == {p \in NN : m[p[1]][p[2]] = "F" /\ ref[p[1]][p[2]]}
-              curbad == IF Ev.form = "cur" /\ eqm # <<>> THEN {p \in NN : m[p[1]][p[2]] # eqm[p[1]][p[2]]} ELSE {} IN
+              curbad == IF Ev.form = "cur" /\ eqm # <<>>     \* (panics are reported by their own law)
+                        THEN {p \in NN : m[p[1]][p[2]] # eqm[p[1]][p[2]] /\ m[p[1]][p[2]] \in {"T", "F"} /\ eqm[p[1]][p[2]] \in {"T", "F"}} ELSE {} IN
           /\ Fail(Classes("Equal panicked", Ev.form, panics)
                   \cup Classes("Equal returned true for structurally different values", Ev.form, ftrue)
                   \cup Classes("Equal returned false for structurally identical values", Ev.form, ffalse)
@@ -105,7 +106,8 @@ CmpObs ==
      THEN Fail(Plain("cmp: observation does not belong to the current case (or no Equal observation precedes it)", Ev.form)) /\ UNCHANGED cmpm
      ELSE LET m == Ev.m
               tr == CmpTransBad(m, N)
-              curbad == IF Ev.form = "cur" /\ cmpm # <<>> THEN {p \in N \X N : m[p[1]][p[2]] # cmpm[p[1]][p[2]]} ELSE {}
+              curbad == IF Ev.form = "cur" /\ cmpm # <<>>
+                        THEN {p \in N \X N : m[p[1]][p[2]] # cmpm[p[1]][p[2]] /\ m[p[1]][p[2]] \in {-1, 0, 1} /\ cmpm[p[1]][p[2]] \in {-1, 0, 1}} ELSE {}
               \* not a verdict: where today's template (implementation-shaped layer) would have answered differently
               drift  == IF Ev.form = "bin"
                         THEN {p \in N \X N : m[p[1]][p[2]] \in {-1, 0, 1} /\ m[p[1]][p[2]] # CmpImpl(NoEnv, T, X(p[1]), X(p[2]), "top")}
